@@ -48,23 +48,15 @@ deriving DecidableEq, Repr
 
 def Pause.init : Pause := ⟨.running, [], 0, false⟩
 
-/-- a load balancer: its target names, whether its probe loops run, its rotation index -/
-structure Lb where
-  id      : Nat
-  targets : List Bytes
-  probing : Bool
-  idx     : Nat
-deriving DecidableEq, Repr
-
 structure Svc where
   name    : Bytes
   opts    : SvcOptions
   topts   : TargetOptions
-  active  : Nat                -- load-balancer id
-  rollout : Option Nat
-  pause   : Pause              -- the shared *PauseController
-  split   : Option Split       -- the shared *RolloutController
-  certMgr : Bool               -- certManager != nil (decided at Service.initialize)
+  active  : List Bytes            -- target names of the active load balancer
+  rollout : Option (List Bytes)   -- target names of the rollout load balancer, if there is one
+  pause   : Pause                 -- the shared *PauseController
+  split   : Option Split          -- the shared *RolloutController
+  certMgr : Bool                  -- certManager != nil (decided at Service.initialize)
 deriving DecidableEq, Repr
 
 /-- what `MarshalJSON` persists for one service -/
@@ -78,14 +70,34 @@ structure SvcSnap where
   split   : Option Split
 deriving DecidableEq, Repr
 
-structure State where
-  svcs   : List Svc                 -- the service map (no two entries share a name)
-  lbs    : List Lb                  -- every load balancer created by this process
-  nextLb : Nat
-  file   : Option (List SvcSnap)    -- the state file (none = absent)
+inductive Slot | active | rollout
+deriving DecidableEq, Repr
+
+/-- the part of the router that commands read: the service map and the state file -/
+structure Core where
+  svcs : List Svc                 -- the service map
+  file : Option (List SvcSnap)    -- the state file (none = absent)
 deriving Repr
 
-def State.init : State := ⟨[], [], 0, none⟩
+/-- what a command does to probe loops: a new load balancer starts probing its targets,
+    a disposed one stops -/
+inductive Eff
+  | start (targets : List Bytes)
+  | stop (targets : List Bytes)
+  | reset (name : Bytes) (slot : Slot)     -- a fresh load balancer: rotation index 0
+  | exit                                   -- the process is replaced: every probe loop dies
+deriving DecidableEq, Repr
+
+structure State where
+  core    : Core
+  probing : List (List Bytes)               -- multiset of target lists whose probe loops run
+  idx     : List ((Bytes × Slot) × Nat)     -- rotation index per installed load balancer
+deriving Repr
+
+def Core.init : Core := ⟨[], none⟩
+def State.init : State := ⟨Core.init, [], []⟩
+def State.svcs (s : State) : List Svc := s.core.svcs
+def State.file (s : State) : Option (List SvcSnap) := s.core.file
 
 inductive Res
   | ok | notFound | hostInUse | unhealthy | rolloutNotSet | badTarget | badCert | badPages
@@ -101,9 +113,6 @@ structure Env where
   certOk  : Bool   -- the certificate/key pair loads
   pagesOk : Bool   -- the error-page directory parses
   healthy : Bool   -- every new target passes a probe within the deploy timeout
-deriving DecidableEq, Repr
-
-inductive Slot | active | rollout
 deriving DecidableEq, Repr
 
 inductive Cmd
@@ -136,7 +145,8 @@ def validTarget (t : Bytes) : Bool :=
 
 /-! ### service table -/
 
-def State.get (s : State) (name : Bytes) : Option Svc := s.svcs.find? (·.name = name)
+def Core.get (c : Core) (name : Bytes) : Option Svc := c.svcs.find? (·.name = name)
+def State.get (s : State) (name : Bytes) : Option Svc := s.core.get name
 
 def bindingsOfSvc (v : Svc) : List Binding :=
   v.opts.hosts.flatMap fun h => v.opts.prefixes.map fun p => ⟨h, p, v.name⟩
@@ -171,17 +181,11 @@ def conflict (svcs : List Svc) (name : Bytes) (o : SvcOptions) : Bool :=
 
 /-! ### snapshot -/
 
-def lbTargets (s : State) (id : Nat) : List Bytes :=
-  ((s.lbs.find? (·.id = id)).map (·.targets)).getD []
+def snapOf (v : Svc) : SvcSnap :=
+  { name := v.name, opts := v.opts, topts := v.topts, active := v.active, rollout := v.rollout,
+    pause := (v.pause.st, v.pause.msg, v.pause.failAfter), split := v.split }
 
-def snapOf (s : State) (v : Svc) : SvcSnap :=
-  { name := v.name, opts := v.opts, topts := v.topts,
-    active := lbTargets s v.active,
-    rollout := v.rollout.map (lbTargets s),
-    pause := (v.pause.st, v.pause.msg, v.pause.failAfter),
-    split := v.split }
-
-def save (s : State) : State := { s with file := some (s.svcs.map (snapOf s)) }
+def save (c : Core) : Core := { c with file := some (c.svcs.map snapOf) }
 
 /-! ### Service.initialize (certificate manager, middleware) -/
 
@@ -204,41 +208,34 @@ def initService (o : SvcOptions) (env : Env) : Except Res Bool :=
 
 /-! ### commands -/
 
-def newLb (s : State) (targets : List Bytes) : State × Nat :=
-  ({ s with lbs := s.lbs ++ [⟨s.nextLb, targets, true, 0⟩], nextLb := s.nextLb + 1 }, s.nextLb)
-
-def disposeLb (s : State) (id : Nat) : State :=
-  { s with lbs := s.lbs.map fun l => if l.id = id then { l with probing := false } else l }
-
-def updSvc (s : State) (name : Bytes) (f : Svc → Svc) : State :=
-  { s with svcs := s.svcs.map fun v => if v.name = name then f v else v }
+def updSvc (c : Core) (name : Bytes) (f : Svc → Svc) : Core :=
+  { c with svcs := c.svcs.map fun v => if v.name = name then f v else v }
 
 /-- `UpdateLoadBalancer` -/
-def withLb (v : Svc) (slot : Slot) (id : Nat) : Svc :=
+def withLb (v : Svc) (slot : Slot) (ts : List Bytes) : Svc :=
   match slot with
-  | .active => { v with active := id }
-  | .rollout => { v with rollout := some id }
+  | .active => { v with active := ts }
+  | .rollout => { v with rollout := some ts }
 
 /-- the load balancer `UpdateLoadBalancer` returns (nil for the active slot of a new service) -/
-def replacedLb (s : State) (v : Svc) (slot : Slot) : Option Nat :=
+def replacedLb (c : Core) (v : Svc) (slot : Slot) : Option (List Bytes) :=
   match slot with
-  | .active => if s.svcs.any (·.name = v.name) then some v.active else none
+  | .active => if c.svcs.any (·.name = v.name) then some v.active else none
   | .rollout => v.rollout
 
 /-- `deployTargetsIntoService` once the service object (`v`, not yet installed for a deploy;
     the installed one for a rollout deploy) exists -/
-def deployInto (s : State) (v : Svc) (slot : Slot) (targets : List Bytes) (env : Env) : State × Res :=
-  if !targets.all validTarget then (s, .badTarget) else
-  let s1 := (newLb s targets).1
-  let id := s.nextLb
-  if !env.healthy then (disposeLb s1 id, .unhealthy) else
-  let v' := withLb v slot id
+def deployInto (c : Core) (v : Svc) (slot : Slot) (targets : List Bytes) (env : Env) : Core × Res × List Eff :=
+  if !targets.all validTarget then (c, .badTarget, []) else
+  -- NewLoadBalancer starts the probe loops; WaitUntilHealthy
+  if !env.healthy then (c, .unhealthy, [.start targets, .stop targets]) else
+  let v' := withLb v slot targets
   -- installService: check + set under the write lock, snapshot whatever the outcome
-  if conflict s1.svcs v'.name v'.opts then (save (disposeLb s1 id), .hostInUse) else
-  let s2 := save { s1 with svcs := setSvc s1.svcs v' }
-  match replacedLb s v slot with
-  | some r => (disposeLb s2 r, .ok)
-  | none => (s2, .ok)
+  if conflict c.svcs v'.name v'.opts then (save c, .hostInUse, [.start targets, .stop targets]) else
+  let c2 := save { c with svcs := setSvc c.svcs v' }
+  match replacedLb c v slot with
+  | some r => (c2, .ok, [.start targets, .reset v.name slot, .stop r])
+  | none => (c2, .ok, [.start targets, .reset v.name slot])
 
 def pauseCtl (p : Pause) (failAfter : Int) : Pause :=
   { st := .paused, msg := [], failAfter := failAfter,
@@ -260,91 +257,100 @@ def restorePause (p : PauseSt × Bytes × Int) : Option Pause :=
   | .stopped => setStateCtl p0 .stopped p.2.1
 
 /-- `Service.UnmarshalJSON` -/
-def restoreSvc (s : State) (sn : SvcSnap) : Except Res (State × Svc) :=
+def restoreSvc (sn : SvcSnap) : Except Res Svc :=
   match restorePause sn.pause with
   | none => .error .panic
   | some p =>
     if !sn.active.all validTarget then .error .badTarget else
-    let s1 := (newLb s sn.active).1
     let ro := sn.rollout.filter (fun ts => !ts.isEmpty)
     if !(ro.getD []).all validTarget then .error .badTarget else
-    let s2 := match ro with
-      | some ts => (newLb s1 ts).1
-      | none => s1
-    let r := ro.map fun _ => s1.nextLb
     match initService sn.opts ⟨true, true, true⟩ with
     | .error e => .error e
     | .ok cm =>
-      .ok (s2, { name := sn.name, opts := sn.opts, topts := sn.topts, active := s.nextLb, rollout := r,
-                 pause := p, split := sn.split, certMgr := cm })
+      .ok { name := sn.name, opts := sn.opts, topts := sn.topts, active := sn.active, rollout := ro,
+            pause := p, split := sn.split, certMgr := cm }
 
-def restoreAll : State → List SvcSnap → Option State
-  | s, [] => some s
-  | s, sn :: rest =>
-    match restoreSvc s sn with
+def restoreAll : List Svc → List SvcSnap → Option (List Svc)
+  | svcs, [] => some svcs
+  | svcs, sn :: rest =>
+    match restoreSvc sn with
     | .error _ => none
-    | .ok (s', v) => restoreAll { s' with svcs := setSvc s'.svcs v } rest
+    | .ok v => restoreAll (setSvc svcs v) rest
 
 /-- `RestoreLastSavedState` in a fresh process: any decode error leaves the router empty -/
-def restore (file : Option (List SvcSnap)) : State :=
-  let empty : State := { State.init with file := file }
+def restoreCore (file : Option (List SvcSnap)) : Core :=
   match file with
-  | none => empty
-  | some sns => (restoreAll empty sns).getD empty
+  | none => ⟨[], file⟩
+  | some sns => ⟨(restoreAll [] sns).getD [], file⟩
 
 /-- `findOrCreateService`: a copy of the installed object (sharing load balancers, pause and
     rollout controllers) with the new options, or a fresh service -/
-def deployObj (s : State) (name : Bytes) (o : SvcOptions) (topts : TargetOptions) (cm : Bool) : Svc :=
-  match s.get name with
+def deployObj (c : Core) (name : Bytes) (o : SvcOptions) (topts : TargetOptions) (cm : Bool) : Svc :=
+  match c.get name with
   | some old => { old with opts := o, topts := topts, certMgr := cm }
-  | none => { name := name, opts := o, topts := topts, active := 0, rollout := none,
+  | none => { name := name, opts := o, topts := topts, active := [], rollout := none,
               pause := Pause.init, split := none, certMgr := cm }
 
-def withSvc (s : State) (name : Bytes) (k : Svc → State × Res) : State × Res :=
-  match s.get name with
-  | none => (save s, .notFound)
+def withSvc (c : Core) (name : Bytes) (k : Svc → Core × Res × List Eff) : Core × Res × List Eff :=
+  match c.get name with
+  | none => (save c, .notFound, [])
   | some v => k v
 
-def step (s : State) : Cmd → State × Res
+def svcLbs (v : Svc) : List (List Bytes) := v.active :: v.rollout.toList
+
+def stepCore (c : Core) : Cmd → Core × Res × List Eff
   | .deploy name targets opts topts env =>
     let o := normalizeOpts opts
     match initService o env with
-    | .error e => (s, e)
-    | .ok cm => deployInto s (deployObj s name o topts cm) .active targets env
+    | .error e => (c, e, [])
+    | .ok cm => deployInto c (deployObj c name o topts cm) .active targets env
   | .rolloutDeploy name targets env =>
-    match s.get name with
-    | none => (s, .notFound)
-    | some v => deployInto s v .rollout targets env
+    match c.get name with
+    | none => (c, .notFound, [])
+    | some v => deployInto c v .rollout targets env
   | .rolloutSet name percent allow =>
-    withSvc s name fun v =>
-      if v.rollout.isNone then (save s, .rolloutNotSet)
-      else (save (updSvc s name fun v => { v with split := some ⟨percent, allow⟩ }), .ok)
+    withSvc c name fun v =>
+      if v.rollout.isNone then (save c, .rolloutNotSet, [])
+      else (save (updSvc c name fun v => { v with split := some ⟨percent, allow⟩ }), .ok, [])
   | .rolloutStop name =>
-    withSvc s name fun _ => (save (updSvc s name fun v => { v with split := none }), .ok)
+    withSvc c name fun _ => (save (updSvc c name fun v => { v with split := none }), .ok, [])
   | .pause name failAfter =>
-    withSvc s name fun _ => (save (updSvc s name fun v => { v with pause := pauseCtl v.pause failAfter }), .ok)
+    withSvc c name fun _ => (save (updSvc c name fun v => { v with pause := pauseCtl v.pause failAfter }), .ok, [])
   | .stop name msg =>
-    withSvc s name fun v =>
+    withSvc c name fun v =>
       match setStateCtl v.pause .stopped msg with
-      | none => (s, .panic)
-      | some p => (save (updSvc s name fun v => { v with pause := p }), .ok)
+      | none => (c, .panic, [])
+      | some p => (save (updSvc c name fun v => { v with pause := p }), .ok, [])
   | .resume name =>
-    withSvc s name fun v =>
+    withSvc c name fun v =>
       match setStateCtl v.pause .running [] with
-      | none => (s, .panic)
-      | some p => (save (updSvc s name fun v => { v with pause := p }), .ok)
+      | none => (c, .panic, [])
+      | some p => (save (updSvc c name fun v => { v with pause := p }), .ok, [])
   | .remove name =>
-    withSvc s name fun v =>
-      let s1 := disposeLb s v.active
-      let s2 := match v.rollout with | some r => disposeLb s1 r | none => s1
-      (save { s2 with svcs := removeSvc s2.svcs name }, .ok)
-  | .restart => (restore s.file, .ok)
+    withSvc c name fun v =>
+      (save { c with svcs := removeSvc c.svcs name }, .ok, (svcLbs v).map .stop)
+  | .restart =>
+    let c' := restoreCore c.file
+    (c', .ok, .exit :: c'.svcs.flatMap fun v => (svcLbs v).map .start)
+
+/-- bookkeeping of probe loops and rotation indices -/
+def applyEff (s : State) : Eff → State
+  | .start ts => { s with probing := s.probing ++ [ts] }
+  | .stop ts => { s with probing := s.probing.erase ts }
+  | .reset n sl => { s with idx := s.idx.filter (·.1 ≠ (n, sl)) }
+  | .exit => { s with probing := [], idx := [] }
+
+def step (s : State) (cmd : Cmd) : State × Res :=
+  let (c', r, effs) := stepCore s.core cmd
+  (effs.foldl applyEff { s with core := c' }, r)
 
 def run (cmds : List Cmd) : State := cmds.foldl (fun s c => (step s c).1) State.init
 
+def runCore (cmds : List Cmd) : Core := cmds.foldl (fun c cmd => (stepCore c cmd).1) Core.init
+
 def results (cmds : List Cmd) : List Res :=
-  (cmds.foldl (fun (acc : State × List Res) c =>
-    let r := step acc.1 c; (r.1, acc.2 ++ [r.2])) (State.init, [])).2
+  (cmds.foldl (fun (acc : Core × List Res) c =>
+    let r := stepCore acc.1 c; (r.1, acc.2 ++ [r.2.1])) (Core.init, [])).2
 
 /-! ### observations -/
 
@@ -367,7 +373,7 @@ def listServices (s : State) : List ListRow :=
   s.svcs.map fun v =>
     let h := joinComma v.opts.hosts
     { name := v.name, host := if h.isEmpty then [cStar] else h, path := joinComma v.opts.prefixes,
-      target := joinComma (lbTargets s v.active), tls := v.opts.tlsEnabled, state := v.pause.st }
+      target := joinComma v.active, tls := v.opts.tlsEnabled, state := v.pause.st }
 
 def table (s : State) : List Binding := bindingsOf s.svcs
 
